@@ -264,6 +264,16 @@ class Evaluator(object):
             self.regimes.add('log1p:re<-0.5')
         if name == 'log1p' and u.M > 1e70:
             self.regimes.add('log1p:huge')
+        if name in ('arcsin', 'arccos'):
+            # the class forms log(j z + sqrt(1 - z^2)); same root cause as arctan when its components
+            # straddle the imaginary axis, hence the same tag
+            try:
+                p = mp.im(u.a) + mp.re(mp.sqrt(1 - u.a * u.a))
+                q = -mp.im(u.b) + mp.re(mp.sqrt(1 - u.b * u.b))
+                if min(p, q) <= 0 <= max(p, q):
+                    self.regimes.add('arctan:mixed')
+            except (ValueError, ZeroDivisionError):
+                pass
         if name == 'arctan':
             # the class forms log(1 - j z) - log(1 + j z); idempotent components 1 -+ i u_a, 1 +- i u_b
             ia, ib = mp.im(u.a), mp.im(u.b)
